@@ -107,7 +107,11 @@ func (it *Interp) fullKey(v *StoreView, key *StrV) *StrV {
 	if v.prefix == nil {
 		return key
 	}
-	return it.strConcat(v.prefix, key)
+	if it.ex.cfg.StructuredKeys && isPlainB(v.prefix) && isPlainB(key) {
+		return it.strConcat(v.prefix, key)
+	}
+	// opaque keys: concat(prefix, key) as an uninterpreted term so that keys of different prefix families never alias
+	return it.strConcatA(v.prefix, key)
 }
 
 // storeGet returns the value (nil *StrV if absent).
